@@ -90,7 +90,9 @@ def pop (less : P → P → Bool) (q : PQ K P) : Option (PQ K P × K) :=
     | none => none
     | some (h', it, notes) =>
       let m1 := applyNotes q.m notes
-      some ({ h := h', m := if pqPopDeletes then mDel m1 it.1 else m1 }, it.1)
+      -- `return item.K`; without it the call hands out nothing (modelled like a panic)
+      if pqPopReturnsKey then some ({ h := h', m := if pqPopDeletes then mDel m1 it.1 else m1 }, it.1)
+      else none
   else none
 
 def peek (q : PQ K P) : Option K := if pqPeekForwards then (Heap.peek q.h).map (·.1) else none
@@ -101,7 +103,9 @@ def contains (q : PQ K P) (k : K) : Bool := containsRes (idxOf q k).isSome
 def priority (q : PQ K P) (k : K) : Option (Option P) :=
   match idxOf q k with
   | some idx =>
-    if priorityPresent true then
+    -- `if ok { return h.inner.Item(idx).P }`; without that statement the code falls through to
+    -- `return zero`
+    if priorityPresent true && priorityReadsItem then
       if idx < 0 then none else
       match Heap.item q.h idx.toNat with
       | some kp => some (some kp.2)
@@ -125,11 +129,20 @@ def remove (less : P → P → Bool) (q : PQ K P) (k : K) : Option (PQ K P) :=
 
 def grow (q : PQ K P) : PQ K P := { q with h := Heap.grow q.h }
 
-/-- `PriorityQueue.Iterate` = the heap iterator mapped to keys -/
+/-- the function `iterator.Map` applies to what the inner iterator yields -/
+def mapOut {α β : Type} (f : α → β) : IterOut α → IterOut β
+  | .panic => .panic
+  | .done => .done
+  | .item x => .item (x.map f)
+
+/-- `Next` of `PriorityQueue.Iterate()`. The generated fact `pqIterateMapsInnerToKey` says the body
+of `Iterate` is exactly `return iterator.Map(h.inner.Iterate(), func(kp KP[K, P]) K { return kp.K })`:
+the inner heap's (lazy, generation-checked) iterator with every item mapped to its key. Any other
+body (e.g. collecting the keys eagerly) makes the fact `false`; the model then has no iterator to
+follow (modelled as the empty one) and every theorem about `iterNext` fails. -/
 def iterNext (q : PQ K P) (it : Iter) : Iter × IterOut K :=
-  match Heap.iterNext q.h it with
-  | (it', .panic) => (it', .panic)
-  | (it', .done) => (it', .done)
-  | (it', .item x) => (it', .item (x.map (·.1)))
+  if pqIterateMapsInnerToKey then
+    ((Heap.iterNext q.h it).1, mapOut (·.1) (Heap.iterNext q.h it).2)
+  else (it, .done)
 
 end Juniper.Model.PQ
